@@ -14,8 +14,8 @@ def run(ctx):
     b = ctx.build('c20', core.MODPATH + '/internal/bytecode/stub', files)
     nproc, rounds = (16, 30) if not ctx.thorough else (96, 1000)
     ctx.children(b, nproc, run='TestC20Holder', env={'VERIF_C20_ROUNDS': str(rounds)}, timeout=1200, parallel=2 if not ctx.thorough else 4)
-    ctx.children(b, 4 if not ctx.thorough else 32, run='TestC20Acquire', timeout=600,
-                 env={'VERIF_C20_ACQ': '400' if not ctx.thorough else '4000'})
+    ctx.children(b, 8 if not ctx.thorough else 32, run='TestC20Acquire', timeout=600,
+                 env={'VERIF_C20_ACQ': '800' if not ctx.thorough else '4000'})
     ch = ctx.child(b, run='TestC20MmapDenied', timeout=120)
     if ch.rc != 0 and ch.report is None:
         # the runtime itself may die of the address-space limit: that is the fault injector hitting the runtime, not goom
